@@ -4,7 +4,7 @@ use apache_avro::decode::decode_internal;
 use apache_avro::encode::encode_internal;
 use apache_avro::schema::{Name, Schema};
 use apache_avro::types::Value;
-use std::collections::HashMap;
+use apache_avro::vmap::HashMap;
 
 pub type Names = HashMap<Name, Schema>;
 
@@ -30,6 +30,18 @@ pub fn name(n: &str) -> Name {
 /// decode one datum from `data[..len]`; `Some((value, consumed))` or `None` on `Err`.
 pub fn run_dec<const N: usize>(schema: &Schema, names: &Names, data: [u8; N], len: usize) -> Option<(Value, usize)> {
     let mut src = Src::new(data, len);
+    match decode_internal(schema, names, None, &mut src) {
+        Ok(v) => Some((v, src.pos)),
+        Err(e) => {
+            leak(e);
+            None
+        }
+    }
+}
+
+/// like `run_dec`, for inputs known to be at least `min_len` (concrete) bytes long
+pub fn run_dec_min<const N: usize>(schema: &Schema, names: &Names, data: [u8; N], len: usize, min_len: usize) -> Option<(Value, usize)> {
+    let mut src = Src::with_min(data, len, min_len);
     match decode_internal(schema, names, None, &mut src) {
         Ok(v) => Some((v, src.pos)),
         Err(e) => {
